@@ -5,7 +5,7 @@
      httoop/server/__init__.py     on_startline_complete -> on_uri_complete (bytes(uri), _check_uri_max_length,
                                    sanitize_request_uri_path, validate_request_uri_scheme) -> on_protocol_complete;
                                    on_headers_complete: check_host_header_exists, set_request_uri_host
-     httoop/status/redirect.py     RedirectStatus.__init__: Location = str(URI(path))
+     httoop/status/redirect.py     RedirectStatus.__init__: Location = str(URI(location))
      httoop/header/messaging.py    Host.sanitize, is_ip4 / is_ip6 / is_fqdn, HOSTPORT, RE_HOSTNAME
    Definitions only; proofs are in Proofs/ServerTarget.v.  Tables: Gen/ServerTargetT.v (+ the tables of the composed models).
 
@@ -55,8 +55,9 @@ Variable helem : bytes -> elres.
 (* text with a non-ASCII character: None = does not match \d+ ; Some None = int() refuses it; Some (Some z) = int(text) *)
 Variable udigits : bytes -> option (option Z).
 (* iv: int() digit limit in the version (D40); vq: escape width (D1); vu: ':' in user names (D18);
-   v7: undecodable escapes (D7); vn: normalize's default port (D30) *)
-Variable iv vq vu v7 vn : variant.
+   v7: undecodable escapes (D7); vn: normalize's default port (D30); vl: what sanitize_request_uri_path hands to
+   MOVED_PERMANENTLY (D55; T1 probe LOCATION_VARIANT) *)
+Variable iv vq vu v7 vn vl : variant.
 (* ServerStateMachine(scheme, host, port) *)
 Variable dscheme dhost : bytes.
 Variable dport : option N.
@@ -93,12 +94,22 @@ Definition validate_uri (m : bytes) (u : ruri) : bool :=
 Definition compose_ok (u : ruri) : bool :=
   match uri_compose idna_enc vq vu (to_syntax u) with Some _ => true | None => false end.
 
-(* RedirectStatus.__init__: headers['Location'] = str(URI(path.encode('UTF-8'))) -- the normalised path text
-   is parsed as a URI (base class) and composed again *)
+(* sanitize_request_uri_path + RedirectStatus.__init__: headers['Location'] = str(URI(location)).
+   AsFound:  location = path.encode('UTF-8') -- the normalised (decoded) path text is PARSED as a URI (base class) and
+             composed again (finding D55);
+   Repaired: location = URI(path=path) -- a URI object whose other seven slots are empty (the dict setter; the port
+             setter turns '' into the class default None); URI(<URI>) copies the tuple, nothing is parsed: the Location
+             is the composed path. *)
+Definition path_only (p : bytes) : UriSyntax.uri := UriSyntax.mkUri [] [] [] [] None p [] [].
+
 Definition location_of (p : bytes) : res (option bytes) :=
-  match uri_parse valid inet4 inet6 idna_dec vq v7 p with
-  | Err e => Err e
-  | Ok u => Ok (uri_compose idna_enc vq vu u)
+  match vl with
+  | AsFound =>
+      match uri_parse valid inet4 inet6 idna_dec vq v7 p with
+      | Err e => Err e
+      | Ok u => Ok (uri_compose idna_enc vq vu u)
+      end
+  | Repaired => Ok (uri_compose idna_enc vq vu (path_only p))
   end.
 
 (* validate_request_uri_scheme, else branch: scheme, host, port := the configured defaults (three setters) *)
@@ -252,6 +263,11 @@ Definition path_okb (p : bytes) : bool :=
   bytes_eqb p STAR || negb (nonnil p) ||
   (starts_slash p && forallb (fun s => negb (is_dot s) && negb (is_dotdot s)) (psplit p)
    && forallb nonnil (interior (psplit p))).
+
+(* the canonical path percent-encoded as URI.compose writes a path: segment by segment, safe set PATH (RFC 3986 pchar
+   and "/"), and without ":" and "@" when the path does not begin with "/" (a scheme-less relative reference) *)
+Definition encoded_path (vq : variant) (p : bytes) : bytes :=
+  Percent.join [SLASH] (map (Percent.quote vq (if UriSyntax.starts_with [SLASH] p then PCT_PATH else PATH_NOSCHEME)) (Percent.split1 SLASH p)).
 
 Definition S_HTTP_ST : bytes := X "68747470".
 Definition S_HTTPS_ST : bytes := X "6874747073".
